@@ -5,6 +5,7 @@ INIT Init
 NEXT Next
 INVARIANT GeneratedWellFormed
 INVARIANT TRUnique
+INVARIANT TRPreservesReachabilityL
 INVARIANT AlgoRefinesMeaning
 INVARIANT Emit
 CHECK_DEADLOCK FALSE
